@@ -515,6 +515,12 @@ func ubound(t *Term) uint64 {
 		}
 	case OZExt:
 		return ubound(t.args[0])
+	case OExtract:
+		if t.val&0xff == 0 {
+			if ub := ubound(t.args[0]); ub <= mask(t.w) {
+				return ub
+			}
+		}
 	case OBAnd:
 		a, b := ubound(t.args[0]), ubound(t.args[1])
 		if a < b {
@@ -764,12 +770,31 @@ func (c *TermCtx) Bin(op Op, a, b *Term) *Term {
 		if b.op == OConst && b.val == 1 {
 			return a
 		}
+		// small numerator range: a threshold chain is far cheaper than a divider circuit
+		if b.op == OConst && b.val > 1 && bits.OnesCount64(b.val) != 1 {
+			if ub := ubound(a); ub/b.val <= 48 && ub < mask(a.w) {
+				r := c.Const(w, ub/b.val)
+				for q := ub / b.val; q >= 1; q-- {
+					r = c.Ite(c.Cmp(OUlt, a, c.Const(w, q*b.val)), c.Const(w, q-1), r)
+				}
+				return r
+			}
+		}
 		if b.op == OConst && bits.OnesCount64(b.val) == 1 {
 			return c.Bin(OLShr, a, c.Const(w, uint64(bits.TrailingZeros64(b.val))))
 		}
 	case OURem:
 		if b.op == OConst && bits.OnesCount64(b.val) == 1 {
 			return c.Bin(OBAnd, a, c.Const(w, b.val-1))
+		}
+		if b.op == OConst && b.val > 1 {
+			if ub := ubound(a); ub/b.val <= 48 && ub < mask(a.w) {
+				r := c.Bin(OSub, a, c.Const(w, (ub/b.val)*b.val))
+				for q := ub / b.val; q >= 1; q-- {
+					r = c.Ite(c.Cmp(OUlt, a, c.Const(w, q*b.val)), c.Bin(OSub, a, c.Const(w, (q-1)*b.val)), r)
+				}
+				return r
+			}
 		}
 	}
 	return c.op(op, w, 0, a, b)
